@@ -12,16 +12,21 @@ CONSTANTS MaxLen, Profile, EnvSet, ExtraCheck(_, _)
 NoExtra(t, e) == TRUE
 
 \* tokens: <<"leaf", value>> | <<"q", value>> | <<"op", opcode bytes, arity>>
-PathLeaves == IF Profile = "stepper"
-              THEN { Nil, A(<<1>>), A(<<2>>), A(<<3>>), A(<<5>>), A(<<6>>) }
-              ELSE { Nil, A(<<1>>), A(<<2>>), A(<<3>>), A(<<5>>), A(<<7>>) }
-Quoted == IF Profile = "stepper"
-          THEN { Nil, A(<<1>>), A(<<0>>), Cons(A(<<2>>), A(<<3>>)) }
-          ELSE { Nil, A(<<1>>), A(<<2>>), Cons(A(<<5>>), A(<<7>>)) }
-Ops == IF Profile = "stepper"
-       THEN { <<<<2>>, 2>>, <<<<3>>, 3>>, <<<<4>>, 2>>, <<<<5>>, 1>>, <<<<6>>, 1>>, <<<<7>>, 1>>,
+PathLeaves == CASE Profile = "stepper" -> { Nil, A(<<1>>), A(<<2>>), A(<<3>>), A(<<5>>), A(<<6>>) }
+                [] Profile = "hier" -> { Nil, A(<<1>>), A(<<2>>), A(<<3>>) }
+                [] OTHER -> { Nil, A(<<1>>), A(<<2>>), A(<<3>>), A(<<5>>), A(<<7>>) }
+\* profile "hier" (C12, hierarchical view): the quoted constants are small *programs* (whole environment, first
+\* argument, (f 1), (x), (a 2 3)) that the symbol tables of MC_HierGen register as functions
+Quoted == CASE Profile = "stepper" -> { Nil, A(<<1>>), A(<<0>>), Cons(A(<<2>>), A(<<3>>)) }
+            [] Profile = "hier" -> { A(<<1>>), A(<<2>>), Cons(A(<<5>>), Cons(A(<<1>>), Nil)), Cons(A(<<8>>), Nil),
+                                     Cons(A(<<2>>), Cons(A(<<2>>), Cons(A(<<3>>), Nil))) }
+            [] OTHER -> { Nil, A(<<1>>), A(<<2>>), Cons(A(<<5>>), A(<<7>>)) }
+Ops == CASE Profile = "stepper" ->
+            { <<<<2>>, 2>>, <<<<3>>, 3>>, <<<<4>>, 2>>, <<<<5>>, 1>>, <<<<6>>, 1>>, <<<<7>>, 1>>,
               <<<<8>>, 1>>, <<<<9>>, 2>>, <<<<16>>, 2>>, <<<<17>>, 2>> }
-       ELSE { <<<<2>>, 2>>, <<<<3>>, 3>>, <<<<4>>, 2>>, <<<<5>>, 1>>, <<<<6>>, 1>>, <<<<7>>, 1>>,
+         [] Profile = "hier" -> { <<<<2>>, 2>>, <<<<3>>, 3>>, <<<<4>>, 2>>, <<<<5>>, 1>>, <<<<16>>, 2>> }
+         [] OTHER ->
+            { <<<<2>>, 2>>, <<<<3>>, 3>>, <<<<4>>, 2>>, <<<<5>>, 1>>, <<<<6>>, 1>>, <<<<7>>, 1>>,
               <<<<9>>, 2>>, <<<<16>>, 2>> }
 Toks == { <<"leaf", v>> : v \in PathLeaves } \cup { <<"q", v>> : v \in Quoted }
         \cup { <<"op", o[1], o[2]>> : o \in Ops }
@@ -37,10 +42,13 @@ Dec(s) == LET t == s[1] IN
      [] t[1] = "op" -> LET as == DecArgs(Tail(s), t[3]) IN <<Cons(A(t[2]), as[1]), as[2]>>
 
 \* "clean": no environment contains a form whose head is a pair; "headform": one does
-Envs == IF EnvSet = "clean"
-        THEN { Nil, A(<<5>>), Cons(One, A(<<2>>)),
+Envs == CASE EnvSet = "clean" ->
+             { Nil, A(<<5>>), Cons(One, A(<<2>>)),
                Cons(A(<<9>>), Cons(A(<<4>>), Cons(A(<<0, 200>>), A(<<3>>)))) }
-        ELSE { Cons(Cons(A(<<9>>), Nil), Cons(A(<<0, 200>>), Cons(A(<<3>>), Nil))),
+          [] EnvSet = "hier" ->   \* environments holding code: ((f 1) 2 . 3) and (1 . 7)
+             { Nil, Cons(One, A(<<7>>)), Cons(Cons(A(<<5>>), Cons(A(<<1>>), Nil)), Cons(A(<<2>>), A(<<3>>))) }
+          [] OTHER ->
+             { Cons(Cons(A(<<9>>), Nil), Cons(A(<<0, 200>>), Cons(A(<<3>>), Nil))),
                Cons(Cons(A(<<9>>), A(<<4>>)), Cons(A(<<3>>), Cons(A(<<3>>), A(<<7>>)))) }
 
 VARIABLES seq, need, emitted
@@ -57,7 +65,7 @@ Emit == /\ need = 0 /\ ~emitted /\ emitted' = TRUE /\ UNCHANGED <<seq, need>>
               /\ st[1] \in {"ok", "err", "fuel", "oom"}      \* the machine never gets stuck
               \* C06 on the model: asserted on the clean environments, reported as a
               \* model-level counterexample ("D" line) where the deviation is known
-              /\ (EnvSet = "clean" => Assert(Agrees(term, e, "int"), <<"stepper disagrees", term, e, r, st>>))
+              /\ (EnvSet \in {"clean", "hier"} => Assert(Agrees(term, e, "int"), <<"stepper disagrees", term, e, r, st>>))
               /\ (~Agrees(term, e, "int") => PrintT(<<"D", ToJson([prog |-> term, env |-> e, res |-> r, step |-> st])>>))
               /\ Assert(ExtraCheck(term, e), <<"extra check", term, e>>)
               /\ PrintT(<<"V", ToJson([prog |-> term, env |-> e, res |-> r, step |-> st])>>)
